@@ -67,6 +67,24 @@ def order_documents(rng):
         docs.append(obj("Root", {"a": {"type": "string"}},
                         patternProperties={f"^{w}": obj("Pat", {w: {"type": "string"}}) for w in rng.sample(words, 3)},
                         dependencies={w: obj("Dep", {w + "x": {"type": "integer"}}) for w in rng.sample(words, 3)}))
+    for _ in range(4):
+        # property names that map to one attribute name (whatever the generator does with them, it does it the same way every time)
+        groups = [["delivery-address", "delivery_address", "delivery address"], ["a.b", "a_full_stop_b"], ["x y", "x-y", "x_y"], ["Größe", "Grösse"]]
+        props = {}
+        for grp in rng.sample(groups, rng.randint(1, 3)):
+            for n in rng.sample(grp, rng.randint(2, len(grp))):
+                props[n] = {"type": rng.choice(["string", "integer", "boolean"])}
+        props[rng.choice(words)] = {"type": "string"}
+        docs.append(obj("Root", props, required=rng.sample(list(props), rng.randint(0, 2))))
+    for _ in range(4):
+        # untitled object schemas under keys without any ASCII letter or digit: their automatic titles
+        keys = rng.sample(["顧客", "адрес", "$", "—", "ñ", "данные", "%%", "名前"], rng.randint(2, 4))
+        props = {k: {"type": "object", "properties": {rng.choice(words): {"type": "string"}}} for k in keys}
+        defs = {k: {"type": "object", "properties": {rng.choice(words): {"type": "integer"}}} for k in rng.sample(["住所", "§", "имя"], rng.randint(0, 2))}
+        d = obj("Root", props)
+        if defs:
+            d["definitions"] = defs
+        docs.append(d)
     return docs
 
 
@@ -99,7 +117,7 @@ def run(ctx, scale=1.0):
         g = Gen(rng)
         docs = []
         n = int(N_DOCS[ctx["tier"]] * scale)
-        reps = max(1, n // 60)
+        reps = max(1, n // 70)
         for _ in range(reps):
             docs += [{"doc.json": d} for d in order_documents(rng)]
         while len(docs) < n:
